@@ -217,6 +217,17 @@ func (m *monitor) TransitionEnd(tx *am.Transition) {
 			m.killRequested[addr] = true
 		}
 	}
+	// a worker over its error budget has a kill requested by the very handler
+	// that recorded the error: the KillingWorker mutation is queued before the
+	// ErrWorker transition ends
+	if accepted && tx.Mutation.Type == am.MutationAdd && slices.Contains(called, ssS.ErrWorker) {
+		if addr := argsAddr(tx.Mutation.Args); addr != "" {
+			if n := s.VerifWorkerErrs(addr); n > s.WorkerErrKill && !m.killRequested[addr] {
+				m.violate("C15/no-kill-after-errors", fmt.Sprintf("worker %s has %d recorded errors (WorkerErrKill=%d) at the end of the ErrWorker transition that recorded the last one, and no KillingWorker mutation carrying its address was queued (%s)",
+					addr, n, s.WorkerErrKill, ctxs))
+			}
+		}
+	}
 	// never forks while at Max: the gate of an accepted ForkingWorker saw the
 	// map as it is now (the map changes only in SetWorker / WorkerForked /
 	// WorkerKilled transitions)
